@@ -511,6 +511,9 @@ func shapeTrees(shape string) (disk, target []*Node) {
 	case "spine":
 		disk = partialDirs([]string{"a"}, cat(diskLeaves, partialDirs([]string{"b"}, cat(diskLeaves, partialDirs([]string{"c"}, diskLeaves)...))...))
 		target = partialDirs([]string{"a"}, cat([]*Node{f2, l2}, partialDirs([]string{"b"}, cat([]*Node{f2, l2}, partialDirs([]string{"c"}, []*Node{f2, l2})...))...))
+	case "nest":
+		disk = partialDirs([]string{"a"}, partialDirs([]string{"c", "d"}, cat([]*Node{f1, l1}, partialDirs([]string{"e"}, []*Node{f1, u})...)))
+		target = partialDirs([]string{"a"}, []*Node{f2, nDir(map[string]*Node{})})
 	case "edit":
 		disk = partialDirs([]string{"a"}, cat([]*Node{f1, l1}, partialDirs([]string{"c"}, []*Node{f1, l1})...))
 		target = cat(partialDirs([]string{"a"}, cat([]*Node{f2, f1x, l2}, partialDirs([]string{"c"}, []*Node{f2, l2})...)), nil)
@@ -715,13 +718,40 @@ func deletableInside(tc *tCase) [][]string {
 		rec = func(prefix []string, e *core.Entry) {
 			for _, n := range vtree.SortedNames(e) {
 				p := append(append([]string{}, prefix...), n)
-				out = append(out, p)
+				// only where no sibling's removal fails on its own (unknown content
+				// below a sibling directory), see DeleteInside in FSTransition.tla
+				ok := true
+				if parent := nodeAt(tc.Tree0, prefix); parent != nil {
+					for sib, sn := range parent.C {
+						if sib != n && sn != nil && sn.K == "dir" && containsFifo(sn) {
+							ok = false
+						}
+					}
+				}
+				if ok {
+					out = append(out, p)
+				}
 				rec(p, e.Contents[n])
 			}
 		}
 		rec(base, ch.Old)
 	}
 	return out
+}
+
+func containsFifo(n *Node) bool {
+	if n == nil {
+		return false
+	}
+	if n.K == "fifo" {
+		return true
+	}
+	for _, ch := range n.C {
+		if containsFifo(ch) {
+			return true
+		}
+	}
+	return false
 }
 
 func stagedFilesOf(tc *tCase) []string {
@@ -772,7 +802,7 @@ func runFaults(c *vlib.Ctx) error {
 	nRandom := argInt(c, "rand", 10)
 	cancelStride, vanishStride := argInt(c, "cancel", 6), argInt(c, "vanish", 8)
 	if c.Thorough() {
-		shapes = []sh{{"small", 1}, {"wide", 1}, {"spine", 1}, {"two", argInt(c, "two", 6)}}
+		shapes = []sh{{"small", 1}, {"wide", 1}, {"spine", 1}, {"nest", 1}, {"two", argInt(c, "two", 6)}}
 		nRandom = argInt(c, "rand", 200)
 		cancelStride, vanishStride = argInt(c, "cancel", 2), argInt(c, "vanish", 2)
 	}
